@@ -2722,6 +2722,12 @@ class Engine:
         return Closure(e, dict(env))
 
     def ev_ListComp(self, e, env):
+        if len(e.generators) == 1 and not e.generators[0].ifs:
+            it = self.iterable(self.eval(e.generators[0].iter, env))
+            if self.concrete_items(it) is None:
+                # [f(x) for x in <symbolic sequence>]: the list of the mapped sequence (same model as the generator expression;
+                # the element expression is evaluated for a generic index when an element is asked for)
+                return self.ev_GeneratorExp(e, env)
         return SList([('conc', self.comprehension(e.elt, e.generators, env))])
 
     def ev_GeneratorExp(self, e, env):
